@@ -497,6 +497,7 @@ pub fn thread_programs(quick: bool) -> Vec<Job> {
                 panic_property: "C18",
                 class: "threads",
                 name: name.to_string(),
+                spec: format!("open:{name}"),
                 locks_only: false,
                 setup: Box::new(prepared_world),
                 bodies: Box::new(move |_w| {
